@@ -148,6 +148,32 @@ theorem C09_tamper_partial (P : Params) (dec : Bytes → Option Bytes) (encf : B
     · simp only [he, Bool.false_eq_true, if_false, Option.some.injEq] at hd ⊢
       exact hd
 
+/-- On a channel whose mode is Sign or SignAndEncrypt the unsecured carve-out is
+    never taken — whatever the SecurityPolicyURI field of the configuration says
+    (readChunk overwrites it from every incoming OPN chunk before verification)
+    and whatever kind of chunk arrives: every chunk goes through verification. -/
+theorem C09_secured_mode_never_raw (policyNone isAsym : Bool) (P : Params) (dec : Bytes → Option Bytes)
+    (verify : Bytes → Bytes → Bool) (r : Bytes) :
+    receive false policyNone isAsym P dec verify r = verifyAndDecrypt P dec verify r := by
+  simp [receive, carveOut]
+
+/-- hence, in such a mode, a chunk whose signature does not verify is rejected
+    by the whole function (same guard as `C09_rejected_partial`) -/
+theorem C09_secured_mode_rejects_partial (policyNone isAsym : Bool) (P : Params) (dec : Bytes → Option Bytes)
+    (verify : Bytes → Bytes → Bool) (r : Bytes) (h : sigFits P dec r = true)
+    (hbad : ∀ b, decrypted P dec r = some b →
+      verify (b.take (b.length - P.RS)) (b.drop (b.length - P.RS)) = false) :
+    receive false policyNone isAsym P dec verify r = .err := by
+  rw [C09_secured_mode_never_raw]
+  exact C09_rejected_partial P dec verify r h hbad
+
+/-- the carve-out is taken only when the mode is None, and then exactly for
+    policy None or symmetric chunks (an OPN under a real policy is still
+    decrypted and verified while the mode reads None) -/
+theorem C09_carveout_table (m p a : Bool) :
+    carveOut m p a = true ↔ m = true ∧ (p = true ∨ a = false) := by
+  cases m <;> cases p <;> cases a <;> simp [carveOut]
+
 /-! ### Findings: where the unguarded totality statement fails -/
 
 /-- FINDING C09.sig-slice-short-chunk. Sign mode (no decryption): every chunk
